@@ -21,6 +21,7 @@ class Managed:
         self.error = None
         self.thread = threading.Thread(target=self._run, name='sched-%s' % name, daemon=True)
         self.steps = 0
+        self.guard = None
 
     def _run(self):
         self.sched._local.me = self
@@ -59,15 +60,20 @@ class Scheduler:
     def me(self):
         return getattr(self._local, 'me', None)
 
-    def point(self, label):
-        """Called by a managed thread: park here until the driver releases it."""
+    def point(self, label, guard=None):
+        """Called by a managed thread: park here until the driver releases it.
+
+        guard: optional callable; while it returns False the thread is not offered to the driver (it waits for
+        a condition another thread establishes, e.g. a future completing or a work queue filling)."""
         m = self.me()
         if m is None:
             return
+        m.guard = guard
         m.at = label
         m.parked.set()
         m.go.acquire()
         m.at = None
+        m.guard = None
 
     def _line_tracer(self, frame, event, arg):
         fn = frame.f_code.co_filename
@@ -115,6 +121,8 @@ class Scheduler:
                     else:
                         waiting = True
                         continue
+                if m.guard is not None and not m.guard():
+                    continue
                 out.append(n)
             if out or not waiting:
                 return out
@@ -128,8 +136,10 @@ class Scheduler:
             self.step(name)
 
     def join(self):
+        """Join the threads that have finished (parked threads are left to the caller)."""
         for m in self.threads.values():
-            m.thread.join(timeout=self.timeout)
+            if m.done:
+                m.thread.join(timeout=self.timeout)
 
 
 def explore(make_run, max_preemptions=2, max_runs=None, should_stop=None):
